@@ -111,8 +111,8 @@ func (f *FaultPlan) err() error {
 
 // delayer applies a DelayPlan; safe for concurrent use.
 type delayer struct {
+	ctr  uint64 // first field: 64-bit atomics need 8-byte alignment on 32-bit builds
 	plan DelayPlan
-	ctr  uint64
 }
 
 func (d *delayer) pause(site uint64) {
@@ -361,9 +361,9 @@ func DecodeCell(b []byte, item int) Cell {
 
 // Log collects runner events; safe for concurrent use.
 type Log struct {
+	Seq    int64 // first field: 64-bit atomics need 8-byte alignment on 32-bit builds
 	mu     sync.Mutex
 	Events []RunEvent
-	Seq    int64
 	postFn func() bool
 	delay  *delayer
 }
